@@ -1,10 +1,10 @@
--- Recorded by tools/snap_accept.sh from /repo at 220818d: the digests of the statements the models were written against
+-- Recorded by tools/snap_accept.sh from /repo at a9bec55: the digests of the statements the models were written against
 namespace Emerge.Ref.SrcSnap
 
 def digest_C01 : Nat := 0x93e9b3c64391f96f3683de11fbd96709
 def count_C01 : Nat := 35
 
-def digest_C02 : Nat := 0xaa256873c2e419129b682b3cbf36a6dd
+def digest_C02 : Nat := 0x4b059086c7f676a23ec05e707fac7d2b
 def count_C02 : Nat := 68
 
 def digest_C03 : Nat := 0xc298bba11c2f9eaaf7e1a790496724b9
@@ -16,19 +16,19 @@ def count_C04 : Nat := 12
 def digest_C05 : Nat := 0x74ef4f7f4a998fc422a162bf05da931f
 def count_C05 : Nat := 9
 
-def digest_C06 : Nat := 0xb6a0452ed29058f2810219151802a871
+def digest_C06 : Nat := 0xfcc70ba3121db6884582b37fec3dbc3a
 def count_C06 : Nat := 16
 
-def digest_C07 : Nat := 0x023e4ff44167f58fcd340d3b153ef671
+def digest_C07 : Nat := 0xecdb4deb51f905c75cf6ff69b73906c7
 def count_C07 : Nat := 19
 
 def digest_C08 : Nat := 0x8db6edf0ebbe0f6163c8900d817ea9b7
 def count_C08 : Nat := 20
 
-def digest_C09 : Nat := 0xb920cdb5516d2795480ee9206fde84f4
+def digest_C09 : Nat := 0x0bf68cc289394017e8de7afd90908990
 def count_C09 : Nat := 91
 
-def digest_C10 : Nat := 0xbf14b7b09f06f69f576dac05f3124804
+def digest_C10 : Nat := 0x6e7ed75e1bbfaf2bddfd49f49af04605
 def count_C10 : Nat := 74
 
 def digest_C11 : Nat := 0xb395026e4ed347441188611c23c4f0e7
